@@ -1336,7 +1336,9 @@ func (s *LoadingStore[K, V]) Get(ctx context.Context, key K) (V, error) {
 			if loaded.TTL != 0 {
 				expire = s.timerwheel.clock.ExpireNano(loaded.TTL)
 			}
-			if loaded.Cost == 0 {
+			// (a failed load has no value to rate: the cost function is not called on
+			// the zero value it returns, the callers get the loader's error)
+			if err == nil && loaded.Cost == 0 {
 				loaded.Cost = s.cost(loaded.Value)
 			}
 
